@@ -68,6 +68,9 @@ func (e *Engine) callCC(st *State, fr *Frame, cc *ssa.CallCommon, pre *deferred)
 			if ok1 && ok2 && bvWidth(sl.Elem) != 8 {
 				return e.doAppend(st, fr, sl, add)
 			}
+			if src, ok3 := args[1].(SliceV); ok1 && ok3 && bvWidth(sl.Elem) == 8 && !isFloat(sl.Elem) {
+				return e.doAppendBytes(st, fr, sl, src)
+			}
 		}
 		fail("builtin %s on %v", b.Name(), args)
 	}
@@ -234,11 +237,33 @@ func (e *Engine) doCopy(st *State, dst, src SliceV) Val {
 		fail("copy into offset slice")
 	}
 	// rewrite every cell holding dst (same base, off 0) to the shifted window
-	st.setArr(dst.Base, st.arrOf(src.Base))
+	if bvWidth(dst.Elem) == 8 && !isFloat(dst.Elem) {
+		st.setArr(dst.Base, st.arrOf(src.Base))
+	} else {
+		// other element types: every component array of the element type is copied as a whole
+		prefix := elemFamily(dst.Elem)
+		loc0 := loc{kind: "E", tn: typeName(dst.Elem)}
+		// make sure the families exist (reading an element of src creates them)
+		e.loadLoc(st, loc{kind: "E", tn: typeName(dst.Elem), ref: src.Base, idx: src.Off}, dst.Elem)
+		_ = loc0
+		for name, h := range st.heap {
+			if strings.HasPrefix(name, prefix) {
+				inner := &Term{Op: "select", Args: []*Term{h, src.Base}, W: -1, Sort: innerSortOf(h.Sort)}
+				nh := Store(h, dst.Base, inner)
+				nh.Sort = h.Sort
+				st.heap[name] = nh
+			}
+		}
+	}
 	moved := SliceV{Base: dst.Base, Off: src.Off, Len: dst.Len, Cap: dst.Cap, Elem: dst.Elem}
 	for id, v := range st.cells {
 		if s, ok := v.(SliceV); ok && s.Base.String() == dst.Base.String() && isZero(s.Off) {
 			st.cells[id] = moved
+		}
+	}
+	for k, s := range st.arrBack {
+		if s.Base.String() == dst.Base.String() && isZero(s.Off) {
+			st.arrBack[k] = moved
 		}
 	}
 	return dst.Len
@@ -326,6 +351,14 @@ func (e *Engine) sliceOfText(st *State, ps []Piece, str bool) SliceV {
 		// abstract (recursive spec) pieces: one unfolding gives a guarded lower bound of their length, which is
 		// what decides "never empty" for texts that end in such a piece
 		for _, p := range ps {
+			if p.K == "alt" {
+				// guarded alternatives: each one bounds the length under its guard
+				for _, al := range p.Alts {
+					if extra := textLenLower(normText(al.P)); extra > 0 {
+						st.assumeT(Implies(al.Cond, SLe(BVu(low+extra, 64), l)))
+					}
+				}
+			}
 			if p.K != "app" {
 				continue
 			}
@@ -755,6 +788,60 @@ func (e *Engine) doAppend(st *State, fr *Frame, s SliceV, add ListV) []Outcome {
 	return outs
 }
 
+// doAppendBytes models append(dst, src...) on byte slices. Nothing to add: dst itself (a nil dst stays nil). Room
+// in dst: written in place (a frame obligation if dst is pre-existing memory). Otherwise a fresh object holding
+// dst's bytes followed by src's. Contents are stated by (named) quantified equalities; when dst is empty the fresh
+// object simply shows src's bytes.
+func (e *Engine) doAppendBytes(st *State, fr *Frame, dst, src SliceV) []Outcome {
+	zero := BVu(0, 64)
+	newLen := Add(dst.Len, src.Len)
+	var outs []Outcome
+	srcArr := src.Arr
+	if srcArr == nil {
+		srcArr = st.arrOf(src.Base)
+	}
+	dstArr := st.arrOf(dst.Base)
+	// nothing appended
+	st0 := st.clone()
+	st0.assumeT(Eq(src.Len, zero))
+	if e.inc.Sat(st0.pc) {
+		outs = append(outs, Outcome{st: st0, ret: []Val{dst}})
+	}
+	// in place
+	st1 := st.clone()
+	st1.assumeT(And(Not(Eq(src.Len, zero)), SLe(newLen, dst.Cap)))
+	if e.inc.Sat(st1.pc) {
+		if !st1.spec {
+			e.oblige(st1, "frame:append-in-place", Not(ULt(dst.Base, Add(alloc0, BVu(1, 64)))), "append writes into the spare capacity of a pre-existing slice")
+		}
+		na := SymSort(fresh("app_arr"), byteArrSort)
+		st1.assumeT(And(contentEq(na, dst.Off, dstArr, dst.Off, dst.Len), contentEq(na, Add(dst.Off, dst.Len), srcArr, src.Off, src.Len)))
+		st1.setArr(dst.Base, na)
+		delete(st1.text, dst.Base.String())
+		outs = append(outs, Outcome{st: st1, ret: []Val{SliceV{Base: dst.Base, Off: dst.Off, Len: newLen, Cap: dst.Cap, Elem: dst.Elem}}})
+	}
+	// fresh object
+	st2 := st.clone()
+	st2.assumeT(And(Not(Eq(src.Len, zero)), Not(SLe(newLen, dst.Cap))))
+	if e.inc.Sat(st2.pc) {
+		base := st2.allocRef()
+		capT := Sym(fresh("newcap"), 64)
+		st2.assumeT(And(SLe(newLen, capT), SLt(capT, BVu(1<<40, 64))))
+		res := SliceV{Base: base, Off: zero, Len: newLen, Cap: capT, Elem: dst.Elem}
+		if e.valid(st2, Eq(dst.Len, zero)) {
+			st2.setArr(base, srcArr)
+			res.Off = src.Off
+			res.Len = src.Len
+		} else {
+			na := SymSort(fresh("app_arr"), byteArrSort)
+			st2.assumeT(And(contentEq(na, zero, dstArr, dst.Off, dst.Len), contentEq(na, dst.Len, srcArr, src.Off, src.Len)))
+			st2.setArr(base, na)
+		}
+		outs = append(outs, Outcome{st: st2, ret: []Val{res}})
+	}
+	return outs
+}
+
 func innerSortOf(s string) string {
 	// "(Array Ref X)" -> X
 	s = strings.TrimPrefix(s, "(Array Ref ")
@@ -800,6 +887,36 @@ func (e *Engine) applyContract(st *State, fr *Frame, callee *ssa.Function, args 
 		ret = append(ret, v)
 	}
 	cargs0 := append(append([]Val{}, args...), ret...)
+	feasibleBefore := !st.spec && e.inc.Sat(st.pc)
+	// buffers handed to the callee: their text becomes unknown and is then constrained by the callee's ensures,
+	// in which BufOld means the text before this call
+	savedOld := map[int][]Piece{}
+	for _, a := range args {
+		if p, ok := a.(PtrObj); ok {
+			if b, ok := st.objs[p.ID].(*BufObj); ok {
+				if prev, had := st.bufOld[p.ID]; had {
+					savedOld[p.ID] = prev
+				} else {
+					savedOld[p.ID] = nil
+				}
+				if st.bufOld == nil {
+					st.bufOld = map[int][]Piece{}
+				}
+				st.bufOld[p.ID] = b.Text
+				freshCtr++
+				st.objs[p.ID] = &BufObj{Base: b.Base, Alias: b.Alias, Text: []Piece{{K: "opaque", ID: freshCtr}}}
+			}
+		}
+	}
+	defer func() {
+		for id, prev := range savedOld {
+			if prev == nil {
+				delete(st.bufOld, id)
+			} else {
+				st.bufOld[id] = prev
+			}
+		}
+	}()
 	for _, ens := range e.findContracts(callee, "ensures") {
 		cargs := cargs0
 		// clause parameters that name locals of the callee are existentially quantified here: fresh values
@@ -810,6 +927,10 @@ func (e *Engine) applyContract(st *State, fr *Frame, callee *ssa.Function, args 
 		}
 		a := e.evalContract(st, ens, cargs, true)
 		st.assumeT(a)
+		if feasibleBefore && !e.inc.Sat(st.pc) {
+			// vacuity guard: a contract that cannot be satisfied at a reachable call site would silently end the path
+			fail("contract of %s is unsatisfiable at a reachable call in %s (after clause %s)", callee.Name(), fr.fn.Name(), ens.Name())
+		}
 	}
 	return []Outcome{{st: st, ret: ret}}
 }
